@@ -396,7 +396,7 @@ def verifySafetyNet (st : AttStmt) (authDataRaw : Cbor) (cdj : Bytes) (roots : L
   let nonceHash ← sha256M nonceData
   reject (!jvalStrIs ((JVal.lookup payload "nonce").getD (.str "")) (b64Std nonceHash)) (regErr "snet.nonce")
   let x5c ← liftE (snetX5c ((JVal.lookup header "x5c").getD (.arr [])))
-  reject (!((JVal.lookup payload "basicIntegrity").getD (.bool false)).truthy) (regErr "snet.basic-integrity")
+  reject (!((JVal.lookup payload "basicIntegrity").getD (.bool false)).isTrue) (regErr "snet.basic-integrity")
   let ts ← liftE (snetTimestamp ((JVal.lookup payload "timestampMs").getD (.int 0)))
   let late ← safetynetTimestampFails ts
   reject late (regErr "snet.timestamp")
